@@ -615,6 +615,7 @@ def TablesOk (P : List Route → Prop) : List Route → List C05.Step → Prop
   | _, [] => True
   | routes, .register rt :: ss => TablesOk P (routes ++ [rt]) ss
   | routes, .request _ :: ss => P routes ∧ TablesOk P routes ss
+  | routes, .borrow _ _ :: ss => TablesOk P routes ss
 
 /-- **C05_history_isolated on the tree model**: for every history of requests (handlers that dirty
     everything, panic or fail) interleaved with registrations, starting from any world (any pool
@@ -631,6 +632,9 @@ theorem C05_history_isolated_tree :
     intro w hok
     cases s with
     | register rt =>
+      simp only [C05.runSteps, C05.step, C05.expected]
+      exact ih _ hok
+    | borrow id prog =>
       simp only [C05.runSteps, C05.step, C05.expected]
       exact ih _ hok
     | request r =>
